@@ -50,12 +50,29 @@ class RecursiveSeqletEmit(FragmentContract):
         e_exp = O.vmin(b.end + ml + af - 1, l)
         out.append(('fields', And(O.eq(i, b.i), O.eq(s, s_exp), O.eq(e, e_exp), O.eq(p, b.p))))
         out.append(('inside-example', And(0 <= s, s < e, e <= l)))
-        out.append(('attribution-is-span-sum', O.eq(attr, PSX(O.to_z3(b.i), O.to_z3(e_exp - 1)) - ite(s_exp > 0, PSX(O.to_z3(b.i), O.to_z3(s_exp - 1)), 0))))
+        if not O.any_sym(b.i, s_exp, e_exp, attr):
+            from vf.contract import num_eq
+            span = sum(float(b.X[b.i, k]) for k in range(int(s_exp), int(e_exp)))
+            out.append(('attribution-is-span-sum', num_eq(float(attr), span)))
+        else:
+            out.append(('attribution-is-span-sum', O.eq(attr, PSX(O.to_z3(b.i), O.to_z3(e_exp - 1)) - ite(s_exp > 0, PSX(O.to_z3(b.i), O.to_z3(s_exp - 1)), 0))))
         return out
 
     def replay_fragment(self, cfg, st):
-        return []
+        """the real statements of the emission block on a concrete track (prefix sums computed by numpy)"""
+        import numpy
+        from vf.contract import replay_fragment_generic
+        n, l = st.get('X.shape', [1, 8])
+        if n < 1 or l < 1 or n * l > 4096:
+            return []
+        rs = numpy.random.RandomState(0)
+        X = numpy.round(rs.normal(0, 1, (n, l)) * 64) / 64
+        env = dict(X=X, X_csum=numpy.cumsum(X, axis=1), l=l, n=n, i=st['i'], start=st['start'], end=st['end'],
+                   additional_flanks=st['additional_flanks'], min_seqlet_len=st['min_seqlet_len'], p=0.001, seqlets=[])
+        if not (0 <= env['i'] < n and 0 <= env['start'] < env['end'] < l):
+            return []
+        return replay_fragment_generic(self._world, self, cfg, env)
 
 
 def register(world):
-    world.contracts[RecursiveSeqletEmit.key] = RecursiveSeqletEmit()
+    world.register_fragment(RecursiveSeqletEmit())
